@@ -21,6 +21,7 @@ HOOKS = [
     'pySDC.implementations.hooks.log_step_size.LogStepSize',
     'pySDC.implementations.hooks.log_errors.LogGlobalErrorPostStep',
     'pySDC.implementations.hooks.log_errors.LogLocalErrorPostStep',
+    'pySDC.implementations.hooks.log_errors.LogGlobalErrorPostRun',
     # a subclass of a hook that a convergence controller adds later on its own (registration of related hook classes)
     'pySDC.implementations.hooks.log_embedded_error_estimate.LogEmbeddedErrorEstimatePostIter',
     'vf.env.block.DiagnosticHook',  # environment, not under test: causes work outside the steps
@@ -107,6 +108,7 @@ def run(rep, tier):
         plan.append(('direct restart requests (unchanged dt), P=3, <=2', [c09.cfg(P=3, adaptive=None, restart_script=True, hook_classes=HOOKS, post_checks=POST, restarting={'max_restarts': m, 'restart_from_first_step': ff, 'crash_after_max_restarts': False}) for m in (1, 2) for ff in (False, True)], 2))
         plan.append(('convergence patterns, P<=3, K<=2, L<=2 incl. partially filled last block', [block.default_cfg(P=P, K=K, L=L, predict='pfasst_burnin' if L > 1 else None, Tend=0.125 * (P + 1), hook_classes=HOOKS, post_checks=POST, checks=('grammar',), max_blocks=3) for P in (1, 2, 3) for K in (1, 2) for L in (1, 2)], None))
         plan.append(('the same, run started at a negative time with a step boundary exactly at 0', [block.default_cfg(P=P, K=1, L=L, predict='pfasst_burnin' if L > 1 else None, t0=-0.25, Tend=-0.25 + 0.125 * (P + 1), hook_classes=HOOKS, post_checks=POST, checks=('grammar',), max_blocks=3) for P in (1, 2, 3) for L in (1, 2)], None))
+        plan.append(('runs that end at a negative time, and a second (shorter) run() on the same controller', [block.default_cfg(P=P, K=1, L=1, t0=-0.75, Tend=-0.75 + 0.125 * (P + 1), hook_classes=HOOKS, post_checks=POST, checks=('grammar',), max_blocks=3) for P in (1, 2, 3)] + [block.default_cfg(P=P, K=1, L=1, Tend=0.125 * (2 * P), second_run=0.125, hook_classes=HOOKS, post_checks=POST, checks=('grammar',), max_blocks=3) for P in (1, 2)], None))
     else:
         plan.append(('estimate scripts <=2 deviations (4-letter alphabet), ball radius 1 incl P=4', [c09.to_cfg(c, est_n=4, hook_classes=HOOKS, post_checks=POST) for c in c09.ball(1, Ps=(1, 2, 3, 4)) if c['tend'] != 'inside_first'], 2))
         plan.append(('estimate scripts <=2 deviations (all six letters), base with P in 2..3', [c09.to_cfg(dict(c09.ball(0)[0], P=P), hook_classes=HOOKS, post_checks=POST) for P in (2, 3)], 2))
